@@ -239,8 +239,11 @@ class World:
         ctx = self.ctx
         for o in self.objs:
             mro = type(o).__mro__
-            for ix, C in enumerate(mro[:-1]):
+            for ix, C in enumerate(mro):
+                # (the last class of the MRO too: ``super(object, ob)`` is legal, nothing is left, nothing is provided)
                 tail = mro[ix + 1:]
+                if not tail:
+                    ctx.count('super_queries_with_nothing_left_of_the_mro')
                 s = super(C, o)
                 L, U = {Interface}, {Interface}
                 for k in tail:
